@@ -41,6 +41,10 @@ func stdlibDir() string {
 	if d := os.Getenv("VERIF_C14_STDLIB_DIR"); d != "" {
 		return d
 	}
+	if d := os.Getenv("VERIF_REPO"); d != "" {
+		// a scratch copy of the repository (seeded-change runs)
+		return d + "/stdlib"
+	}
 	return "/repo/stdlib"
 }
 
